@@ -386,3 +386,22 @@ def run_harness(run, exe, args, out=None, timeout=1200, env=None, ok_codes=(0,))
             rc = -9
     err = open(errf, "r", errors="replace").read()[-4000:]
     return rc, err
+
+
+# ----------------------------------------------------------------------------------------------
+# Apalache (symbolic): one invariant of a spec at length 0 (all initial states = all operand values)
+# ----------------------------------------------------------------------------------------------
+def apalache(run, module, cfg, inv, timeout=900):
+    out = run.path("apa-%s-%s" % (module, inv), "x")[:-2]
+    cmd = ["apalache-mc", "check", "--config=" + os.path.join(SPEC, cfg + ".cfg"), "--length=0", "--inv=" + inv,
+           "--out-dir=" + out, os.path.join(SPEC, module + ".tla")]
+    t0 = time.time()
+    try:
+        p = subprocess.run(cmd, cwd=out, stdout=subprocess.PIPE, stderr=subprocess.STDOUT, timeout=timeout,
+                           env=dict(os.environ, JVM_ARGS="-Xmx8g -Djava.io.tmpdir=" + out))
+        text = p.stdout.decode("utf-8", "replace")
+    except subprocess.TimeoutExpired:
+        text = "TIMEOUT"
+    res = "discharged" if "The outcome is: NoError" in text else "violated" if "The outcome is: Error" in text else "timeout" if text == "TIMEOUT" else "unknown"
+    shutil.rmtree(out, ignore_errors=True)
+    return {"module": module, "inv": inv, "result": res, "wall_s": round(time.time() - t0, 1), "tail": text[-600:]}
